@@ -702,6 +702,12 @@ def replay(case):
             line = sh.call('parse', hx(text))
         res = compare(text, line)
         exp = P.render(P.parse(text))
+        if res is None and not case.get('fork') and not line.startswith('PANIC'):
+            # the bracketed infix rendering (what `check` prints) is compared as well
+            _, _, disp = split_line(line)
+            want = [P.area_infix(c.area()) for c in P.parse(text)]
+            if disp != want:
+                return ';'.join(want), ';'.join(disp)
         return (exp, exp) if res is None else (res[1], res[2])
     if k == 'reparse':
         line = sh.call('parse', hx(text))
